@@ -916,9 +916,6 @@ class C16(PropertyCheck):
         return True
 
     def known_finding(self, case, obs):
-        # D31: a NATIVE-stored Array1D keeps (and writes) non-zero values at masked entries
-        if case.get("kind") == "array1d" and case.get("junk"):
-            return "D31"
         return None
 
     def shrink(self, case):
@@ -957,7 +954,7 @@ class C16(PropertyCheck):
             "fs_history": ["C16.history_semantics", "C16.output_overwrite_semantics", "C16.output_error_iff",
                            "C16.bare_name_cwd"],
             "mask2d": ["C16.mask2d_hdu_roundtrip", "C16.mask2d_file_roundtrip"],
-            "array1d": ["C16.array1d_roundtrip"], "mask1d": ["C16.mask1d_roundtrip"],
+            "array1d": ["C16.array1d_roundtrip", "C16.native_stored_1d_written_zero_filled"], "mask1d": ["C16.mask1d_roundtrip"],
         }.get(kind, ["C16.native_stored_written_zero_filled", "C16.array2d_hdu_roundtrip", "C16.array2d_file_roundtrip", "C16.scales_header_roundtrip",
                       "C16.flip_undone", "C16.output_is_flipped", "C16.masked_pixels_read_zero",
                       "C16.output_to_fits_then_from_fits"])
